@@ -78,11 +78,13 @@ class SimConnection(sqlite3.Connection):
         self.create_function("sim_now", 0, self._now)
 
     def _now(self) -> str:
+        # the database clock is ONE clock (the server's; for SQLite the host's): it does not
+        # follow the wall-clock skew of the simulated worker process that asks
         sim = seams.SIM
-        if sim is None or self._proc is None:
+        if sim is None:
             t = datetime.datetime.now()
         else:
-            t = datetime.datetime.fromtimestamp(self._proc.now())
+            t = datetime.datetime.fromtimestamp(sim.now)
         return t.strftime("%Y-%m-%d %H:%M:%S.%f")
 
     def cursor(self, factory: Any = SimCursor) -> Any:  # type: ignore[override]
